@@ -342,6 +342,56 @@ def run(res, tier):
            key='HANDOFF-ATOMIC|%s|available-before-dispatch' % f.q,
            message='ThreadFinishedProcessingClientMessages re-dispatches before it has moved the finishing thread to _availableThreads: in a saturated pool the dispatch finds no free thread (and is '
                    'at the thread limit), gives up, and nothing triggers it again — with one pool thread the pending Messages are never handled and UnregisterClient() hangs')
+    # ---------------------------------------------------------------------------------- SHUTDOWN-EMPTIES: nothing a waiter tests is left behind
+    fsd = fx.fn1(TP + '::Shutdown')
+    emptied = set()
+    for c in fsd.walk():
+        if c['k'] == 'CXXMemberCallExpr' and (c.get('q') or '').split('::')[-1] in ('Clear', 'SwapContents') and c.receiver() is not None:
+            r_ = A.strip_casts(c.receiver())
+            if r_['k'] == 'MemberExpr' and A.is_this_member(r_):
+                emptied.add(r_.get('n'))
+    need = sorted(tabs | set(['_waitingForCompletion']))
+    left = [t for t in need if t not in emptied]
+    res.ob('UNREGISTER', fsd.where(), 'Shutdown empties every per-client table %s' % need, not left, function=fsd.q, key='UNREGISTER|%s|empties-all' % fsd.q,
+           message='Shutdown() does not empty %s: a thread blocked in UnregisterClient() is woken by Shutdown(), looks again, still finds work "outstanding" for its client and waits for a wake-up that '
+                   'nobody will send; Shutdown() itself keeps reporting a non-zero count, so GlobalFlushAllCachedObjects() loops forever' % left)
+    # ---------------------------------------------------------------------------------- PUBLISH-BEFORE-SIGNAL: what the pool thread reads is written before it is told to look
+    fsm_ = [g for g in fx.funcs.values() if g.full and g.q.endswith('ThreadPoolThread::SendMessagesToInternalThread')]
+    if not fsm_:
+        raise AnalysisBroken('HANDOFF-ATOMIC: ThreadPoolThread::SendMessagesToInternalThread has no analysed body')
+    fs_ = fsm_[0]
+    sig = [c for c in fs_.walk() if c.is_call() and (c.get('q') or '').endswith('Thread::SendMessageToInternalThread')]
+    pubs = [w for w in fs_.walk() if (w['k'] == 'BinaryOperator' and w.get('op') == '=' and A.strip_casts(w['ch'][0])['k'] == 'MemberExpr' and A.is_this_member(A.strip_casts(w['ch'][0])))
+            or (w['k'] == 'CXXMemberCallExpr' and (w.get('q') or '').split('::')[-1] in ('SwapContents', 'AddTail', 'AddTailMulti') and w.receiver() is not None
+                and A.strip_casts(w.receiver())['k'] == 'MemberExpr' and A.is_this_member(A.strip_casts(w.receiver())))]
+    if not sig or not pubs:
+        raise AnalysisBroken('HANDOFF-ATOMIC: the signal / the hand-over stores of SendMessagesToInternalThread were not found')
+    # after the signal was sent successfully nothing more is stored (stores on its failure edge are the roll-back)
+    fail = P.escape_edges(fs_, status=True, null=False)
+    # keep only those reachable without taking a failure edge of the signal's status test
+    def reach_ok(s_, w):
+        seen, st = set(), [P.pos_of(fs_, s_)[0]]
+        tgt = P.pos_of(fs_, w)[0]
+        first = True
+        while st:
+            b = st.pop()
+            if b in seen:
+                continue
+            seen.add(b)
+            if b == tgt and not first:
+                return True
+            first = False
+            for idx, nx in enumerate(fs_.blocks[b].succ):
+                if nx is None or nx < 0 or (b, idx) in fail:
+                    continue
+                st.append(nx)
+        return P.pos_of(fs_, s_)[0] == tgt and P.pos_of(fs_, s_)[1] < P.pos_of(fs_, w)[1]
+    late = [w for w in pubs if any(reach_ok(s_, w) for s_ in sig)]
+    res.ob('HANDOFF-ATOMIC', fs_.where(sig[0]), 'SendMessagesToInternalThread stores the client and the batch before it signals the pool thread', not late, function=fs_.q,
+           key='HANDOFF-ATOMIC|%s|publish-before-signal' % fs_.q, how='%d store(s), signal at line %s' % (len(pubs), sig[0].get('l')),
+           message='SendMessagesToInternalThread signals the pool thread (line %s) and only afterwards stores `%s`: _currentClient and _internalQueue reach the pool thread through nothing but that '
+                   'signal, so a thread that wakes before the stores sees no client and an empty batch — it aborts on its assertion, or reports "finished" and the real batch is stranded in a thread '
+                   'that is never signalled again' % (sig[0].get('l'), late[0].text(40) if late else ''))
     # ---------------------------------------------------------------------------------- UNREGISTER-ATOMIC (check-then-act)
     res.rule('UNREGISTER-ATOMIC', 'UnregisterClient takes the client out of _registeredClients in the SAME critical section (the same _poolLock guard object, not merely "under the lock") in which it '
                                   'evaluated DoesClientHaveMessagesOutstandingUnsafe(client) and found it false: while the client is registered and the lock is free, SendMessageToThreadPool() accepts '
